@@ -1,9 +1,9 @@
 INIT Init
 NEXT Next
 CONSTANTS
-  MaxFrames = 3
+  MaxFrames = 2
   EmitCases = FALSE
-  Extended = FALSE
+  Extended = TRUE
 INVARIANT Thm_LetBeatsWith
 INVARIANT Thm_InnermostWins
 INVARIANT Thm_PlainSetsInvisible
